@@ -10,18 +10,14 @@ import (
 
 	"pgregory.net/rapid"
 
+	"verif/harness/c02gen"
 	"verif/harness/fw"
 	"verif/harness/pw"
 	"verif/harness/sw"
 	"verif/harness/world"
 )
 
-// Event is one delivery to the sync loop (driver A) — Off is the block's offset from the initial height.
-type Event struct {
-	Off      int    `json:"off"`
-	Kind     string `json:"kind"` // header | data | restart
-	DAHeight uint64 `json:"da_height,omitempty"`
-}
+type Event = c02gen.Event
 
 type ScenarioA struct {
 	InitialHeight uint64    `json:"initial_height"`
@@ -29,43 +25,9 @@ type ScenarioA struct {
 	Events        []Event   `json:"events"`
 }
 
-// GenChain draws a producer chain: runs of empty blocks, non-empty blocks, and repeated tx lists.
-func GenChain(t *rapid.T, maxLen int) []pw.Step {
-	n := rapid.IntRange(1, maxLen).Draw(t, "nblocks")
-	steps := []pw.Step{}
-	var lists [][][]byte
-	for len(steps) < n {
-		switch k := rapid.IntRange(0, 9).Draw(t, "bk"); {
-		case k < 3:
-			run := rapid.IntRange(1, 3).Draw(t, "emptyrun")
-			for i := 0; i < run && len(steps) < n; i++ {
-				steps = append(steps, pw.GoodStep())
-			}
-		case k < 4 && len(lists) > 0:
-			// the same transaction list as an earlier block
-			steps = append(steps, pw.GoodStep(lists[rapid.IntRange(0, len(lists)-1).Draw(t, "same")]...))
-		default:
-			txs := sw.GenTxs(t)
-			lists = append(lists, txs)
-			steps = append(steps, pw.GoodStep(txs...))
-		}
-	}
-	return steps
-}
-
-func genInitial(t *rapid.T) uint64 {
-	switch rapid.IntRange(0, 5).Draw(t, "ih") {
-	case 0:
-		return uint64(rapid.IntRange(2, 5).Draw(t, "ihs"))
-	case 1:
-		return 1<<32 + uint64(rapid.IntRange(0, 3).Draw(t, "ihb"))
-	}
-	return 1
-}
-
 func genA(t *rapid.T) ScenarioA {
-	sc := ScenarioA{InitialHeight: genInitial(t)}
-	sc.Chain = GenChain(t, world.Scale(8, 20))
+	sc := ScenarioA{InitialHeight: c02gen.GenInitial(t)}
+	sc.Chain = c02gen.GenChain(t, world.Scale(8, 20))
 	evs := []Event{}
 	for i, st := range sc.Chain {
 		// the first block of the chain is the pre-saved genesis block: always empty
@@ -97,27 +59,6 @@ func chainSteps(steps []pw.Step) []pw.Step {
 	out := make([]pw.Step, len(steps))
 	copy(out, steps)
 	return out
-}
-
-func hstar(sc ScenarioA, c *fw.Chain) uint64 {
-	gotH := map[int]bool{}
-	gotD := map[int]bool{}
-	for _, e := range sc.Events {
-		if e.Kind == "header" {
-			gotH[e.Off] = true
-		}
-		if e.Kind == "data" {
-			gotD[e.Off] = true
-		}
-	}
-	h := c.Opts.InitialHeight - 1
-	for i, b := range c.Blocks {
-		if !gotH[i] || (!b.Empty && !gotD[i]) {
-			break
-		}
-		h = b.Height
-	}
-	return h
 }
 
 func runA(sc ScenarioA, dir string) world.Verdict {
@@ -176,7 +117,7 @@ func runA(sc ScenarioA, dir string) world.Verdict {
 				return world.Fail("C02/"+p.Sig, "%s", p.Msg)
 			}
 		}
-		want := hstar(sc, c)
+		want := c02gen.HStar(sc.Events, c)
 		got, _ := f.N.Store.Height(c.P.Ctx)
 		if got != want && !(got == 0 && want == c.Opts.InitialHeight-1) {
 			sig := "C02/not-converged"
